@@ -201,6 +201,14 @@ def topo_events(path, kind):
     cp.name = 'OTHER'
     indep = bool(before == [sorted(a.bonds) for a in mt.atoms]
                  and names_before == [(a.name, a.resname, a.resid) for a in mt.atoms] and mt.name == name)
+    # a copy taken after the topology was changed through its own interface equals the topology AS IT IS NOW
+    mt2 = MoleculeTop(path)
+    mt2.atoms[-1].name = 'QQ'
+    if len(mt2.atoms) >= 2 and (len(mt2.atoms) - 1) not in mt2.atoms[0].bonds:
+        mt2.atoms[0].connect(mt2.atoms[-1])
+    cp2 = mt2.copy()
+    equal = equal and bool(cp2 == mt2 and [a.name for a in cp2.atoms] == [a.name for a in mt2.atoms]
+                           and [sorted(a.bonds) for a in cp2.atoms] == [sorted(a.bonds) for a in mt2.atoms])
     ev.append({'op': 'copy', 'equal': equal, 'independent': indep})
     return ev
 
